@@ -156,7 +156,9 @@ func c01Profile(variant string) func(c *sim.RunCtx) {
 		if wconfigPossible(cfg) && t.Chance(1, 3) {
 			cfg.WConfig = true
 			if !cfg.Hier {
-				cfg.KeyFormat = digest.KeyWithoutInstance
+				if !cfg.AC {
+					cfg.KeyFormat = digest.KeyWithoutInstance
+				}
 			}
 			if cfg.Disk && cfg.BlockCount() == 0 {
 				cfg.Spare = 1
